@@ -338,7 +338,7 @@ Lemma scalar_sem env t w v :
   item_ok (defined_numbers env) w v = ty_ok re_match env t v.
 Proof.
   intros Hwf Hw Hty. unfold item_ok.
-  destruct t as [k r l|r l|r|r l|r l|f e l|f64 l|r l|r l|l|l|fl|l]; cbn [write_field] in Hw.
+  destruct t as [k r l|sf r l|r|r l|r l|f e l|f64 l|r l|r l|l|od ts l|fl|l]; cbn [write_field] in Hw.
   - (* integer *)
     apply obind_ok in Hw as [vo [Hv Hw]]. inversion Hw; subst w; clear Hw. cbn [fw_val].
     destruct v; try discriminate. destruct r as [r|].
@@ -396,7 +396,7 @@ Lemma write_field_primary env t w :
   match fw_key w with Some k => kx_primary k | None => false end = is_primary (PSingle t).
 Proof.
   intro Hw.
-  destruct t as [k r l|r l|r|r l|r l|f e l|f64 l|r l|r l|l|l|fl|l]; cbn [write_field] in Hw;
+  destruct t as [k r l|sf r l|r|r l|r l|f e l|f64 l|r l|r l|l|od ts l|fl|l]; cbn [write_field] in Hw;
     try (apply obind_ok in Hw as [x [Hx Hw]]);
     inversion Hw; subst w; cbn [fw_key is_primary]; try reflexivity.
   destruct e as [[ty tn]|]; [|reflexivity]. cbn. destruct ty as [[[|]|]|]; reflexivity.
@@ -406,7 +406,7 @@ Lemma write_field_msg env t w :
   write_field env t = Ok w -> is_msg_kind (fw_kind w) = is_msg_ty t.
 Proof.
   intro Hw.
-  destruct t as [k r l|r l|r|r l|r l|f e l|f64 l|r l|r l|l|l|fl|l]; cbn [write_field] in Hw;
+  destruct t as [k r l|sf r l|r|r l|r l|f e l|f64 l|r l|r l|l|od ts l|fl|l]; cbn [write_field] in Hw;
     try (apply obind_ok in Hw as [x [Hx Hw]]);
     inversion Hw; subst w; cbn [fw_kind is_msg_ty]; try reflexivity.
   - destruct k; reflexivity.
@@ -418,7 +418,7 @@ Lemma write_field_msg_noval env t w :
   write_field env t = Ok w -> is_msg_ty t = true -> fw_val w = None.
 Proof.
   intros Hw Hm.
-  destruct t as [k r l|r l|r|r l|r l|f e l|f64 l|r l|r l|l|l|fl|l]; try discriminate; cbn [write_field] in Hw;
+  destruct t as [k r l|sf r l|r|r l|r l|f e l|f64 l|r l|r l|l|od ts l|fl|l]; try discriminate; cbn [write_field] in Hw;
     inversion Hw; reflexivity.
 Qed.
 
@@ -433,7 +433,7 @@ Lemma write_field_noreq env t w c :
   write_field env t = Ok w -> fw_val w = Some c -> c_req c = false.
 Proof.
   intros Hwt. revert c.
-  destruct t as [k r l|r l|r|r l|r l|f e l|f64 l|r l|r l|l|l|fl|l]; cbn [write_field] in Hwt;
+  destruct t as [k r l|sf r l|r|r l|r l|f e l|f64 l|r l|r l|l|od ts l|fl|l]; cbn [write_field] in Hwt;
     try (apply obind_ok in Hwt as [x [Hx Hwt]]);
     try (destruct r; try discriminate);
     inversion Hwt; subst w; cbn [fw_val]; intros c Ev; try discriminate;
